@@ -658,6 +658,9 @@ def _path_says_newline(decisions, seam):
             return True
         if k in ("eq(10, content.as_bytes()[%s])" % seam, "eq(content.as_bytes()[%s], 10)" % seam) and v is True:
             return True
+        # the same test on the text itself: the remainder of the content starts with the line break
+        if k in ("content[%s..].starts_with('\\n')" % seam, "content.get(%s..).some.starts_with('\\n')" % seam) and v is True:
+            return True
     return False
 
 
